@@ -164,6 +164,23 @@ def f_prefix(a):
     return {"op": "prefix", "sr": srmodel(a["sr"]), "G": a["G"], "s": a["s"], "res": enc_w(g.R, coerce(g.R, v))}
 
 
+def f_derivcall(a):
+    """cfg.derivative(a1)...derivative(ak)(y): recorded as the weight of pre.y under the original grammar."""
+    g = build(a["G"], a["sr"], a.get("names", "str"))
+    d = g
+    for x in ustr(a["pre"]):
+        d = d.derivative(x)
+    v = d(ustr(a["y"]))
+    return {"op": "parse", "sr": srmodel(a["sr"]), "G": a["G"], "s": a["pre"] + a["y"], "res": enc_w(g.R, coerce(g.R, v))}
+
+
+def f_explen(a):
+    g = build(a["G"], a["sr"], a.get("names", "str"))
+    v = g.expected_length
+    from project import enc_rat
+    return {"op": "explen", "sr": "Rat", "G": a["G"], "res": enc_rat(v)}
+
+
 def f_prefixgrammar(a):
     g = build(a["G"], a["sr"], a.get("names", "str"))
     before = cfg_digest(g)
@@ -261,7 +278,8 @@ def f_mask(a):
     for k, v in p.items():
         if v != 1:
             raise AssertionError(f"mask value {v!r} for {k!r}")
-    return {"op": "mask", "sr": "Bool", "G": a["G"], "ctx": a["ctx"], "eos": EOS_NAME, "keys": seq(p.keys())}
+    Gb = {"S": a["G"]["S"], "V": a["G"]["V"], "rules": [dict(r, w=1) for r in a["G"]["rules"]]}
+    return {"op": "mask", "sr": "Bool", "G": Gb, "ctx": a["ctx"], "eos": EOS_NAME, "keys": seq(p.keys())}
 
 
 def f_addeos(a):
@@ -279,7 +297,7 @@ def f_normalize(a):
 
 FUNCS = {"parse": f_parse, "prefix": f_prefix, "prefixgrammar": f_prefixgrammar, "derivative": f_derivative,
          "transform": f_transform, "treesum": f_treesum, "lang": f_lang, "mask": f_mask, "addeos": f_addeos,
-         "normalize": f_normalize}
+         "normalize": f_normalize, "derivcall": f_derivcall, "explen": f_explen}
 
 
 def event(fn, args, site=None, feat=None, timeout=30):
